@@ -205,11 +205,32 @@ def bounded(ctx):
     from Bio.Restriction import BsaI, BsmBI, SapI
     for e in (BsaI, BsmBI, SapI):
         site, a, k = be.enzyme_geometry(e)
-        for sig in (("N" * k, "N" * k), ("R" * k, "Y" * k), ("A" + "N" * (k - 1), "W" * k), ("ACGT"[:k], "TGCA"[:k])):
+        for sig in (("N" * k, "N" * k), ("R" * k, "Y" * k), ("A" + "N" * (k - 1), "W" * k), ("ACGT"[:k], "TGCA"[:k]),
+                    # signatures that overlap themselves (AAAA, ACAC ...): an occurrence may begin inside another one
+                    ("A" * k, "C" * k), (("AC" * k)[:k], ("GT" * k)[:k]), (("AAT" * k)[:k], "T" * k)):
             for base in (core.Entry, core.EntryVector):
                 cls = type("UserPart", (core.AbstractPart, base), dict(cutter=e, signature=sig))
-                for s in be.class_records(cls, rng, count=2) + be.class_records(generic_for(cls), rng, count=2):
+                members = be.class_records(cls, rng, count=2)
+                for s in members + be.class_records(generic_for(cls), rng, count=2):
                     check(cls, s, "user signature %r" % (sig,))
+                # echoes: the letters just before / after each signature repeat its first / last letter (an occurrence of
+                # the signature shifted by one or two letters overlaps the real one)
+                for s in [members[0], members[0][-7:] + members[0][:-7], members[0][-11:] + members[0][:-11]]:
+                    g_ = be.observe_entity(generic_for(cls)(CircularRecord(Seq(s), id="r")))
+                    if g_["valid"] is not True:
+                        continue
+                    for which_ in ("overhang_start", "overhang_end"):
+                        o_ = g_[which_]
+                        pos_ = (s + s).upper().find(o_.upper())
+                        for shift_ in (1, 2):
+                            before = list(s)
+                            for d_ in range(1, shift_ + 1):
+                                before[(pos_ - d_) % len(s)] = o_[(-d_) % len(o_)] if False else o_[0]
+                            check(cls, "".join(before), "echo of %s before it" % which_)
+                            after = list(s)
+                            for d_ in range(shift_):
+                                after[(pos_ + len(o_) + d_) % len(s)] = o_[-1]
+                            check(cls, "".join(after), "echo of %s after it" % which_)
     # characterize: a user kit
     for e in (BsaI,):
         Base = type("KitPart", (core.AbstractPart,), dict(cutter=e))
